@@ -81,7 +81,7 @@ class Poller(BasePoller):
         """Unregister the file descriptor."""
         try:
             self.poller.unregister(self.fileno)
-        except OSError:
+        except (OSError, KeyError):
             pass
 
 
@@ -116,8 +116,9 @@ class IO(object):
             self._wr_lock.release()
             self._rd_lock.release()
 
-        if self._inbound_thread:
-            self._inbound_thread.join(timeout=self._parameters['timeout'])
+        inbound_thread = self._inbound_thread
+        if inbound_thread:
+            inbound_thread.join(timeout=self._parameters['timeout'])
 
         self.socket = None
         self.poller = None
@@ -181,18 +182,20 @@ class IO(object):
 
         :return:
         """
-        if not self.socket:
+        # A concurrent close() may reset these attributes at any time.
+        sock, poller = self.socket, self.poller
+        if not sock:
             return
         try:
-            if self.poller:
-                self.poller.close()
+            if poller:
+                poller.close()
             if self.use_ssl:
-                self.socket.unwrap()
-            self.socket.shutdown(socket.SHUT_RDWR)
+                sock.unwrap()
+            sock.shutdown(socket.SHUT_RDWR)
         except (OSError, socket.error, ValueError):
             pass
 
-        self.socket.close()
+        sock.close()
 
     def _get_socket_addresses(self):
         """Get Socket address information.
